@@ -130,6 +130,11 @@ func (c *config) rewrite(node ast.Node) (ast.Node, error) {
 			}
 		}
 
+		// A field with several names (X, Y int) shares one tag between the
+		// names. Each name needs its own plenc index, so give each name its own
+		// field if we are going to add a numbered tag
+		x.Fields.List = c.splitFields(x.Fields.List)
+
 		// Now we make updates
 		for _, f := range x.Fields.List {
 			if c.excludePrivate {
@@ -204,6 +209,58 @@ func fieldName(f *ast.Field) string {
 			return ""
 		}
 	}
+}
+
+// splitFields gives each name of a multi-name field its own field when the
+// field would otherwise be given a single plenc tag.
+func (c *config) splitFields(fields []*ast.Field) []*ast.Field {
+	out := make([]*ast.Field, 0, len(fields))
+	for _, f := range fields {
+		if len(f.Names) < 2 || !c.needsTag(f) {
+			out = append(out, f)
+			continue
+		}
+		for i, name := range f.Names {
+			nf := &ast.Field{Names: []*ast.Ident{name}, Type: f.Type}
+			if f.Tag != nil {
+				nf.Tag = &ast.BasicLit{Kind: f.Tag.Kind, Value: f.Tag.Value}
+			}
+			if i == 0 {
+				nf.Doc = f.Doc
+			}
+			if i == len(f.Names)-1 {
+				nf.Comment = f.Comment
+			}
+			out = append(out, nf)
+		}
+	}
+	return out
+}
+
+// needsTag reports whether a numbered plenc tag would be added to any of the
+// names of f
+func (c *config) needsTag(f *ast.Field) bool {
+	var tagValue string
+	if f.Tag != nil {
+		tagValue = f.Tag.Value
+	}
+	tags, err := extractTags(tagValue)
+	if err != nil {
+		return false
+	}
+	if _, err := tags.Get("plenc"); err == nil {
+		return false
+	}
+	if c.isExcluded(tags) {
+		return false
+	}
+	for _, name := range f.Names {
+		r, _ := utf8.DecodeRuneInString(name.Name)
+		if !c.excludePrivate || !unicode.IsLower(r) {
+			return true
+		}
+	}
+	return false
 }
 
 func (c *config) isExcluded(tags *structtag.Tags) bool {
